@@ -265,6 +265,8 @@ pub struct Jc2mState {
     pub numplayers: Option<u32>,
     pub extra: Vec<(String, String)>,
     pub players: Vec<(String, String, u16)>,
+    /// text of the challenge the server hands out in the GameSpy 3 handshake (any i32 in decimal)
+    pub challenge: String,
 }
 
 impl Jc2mState {
@@ -356,6 +358,7 @@ pub fn gen_jc2m(c: &mut Chooser, player_counts: &[usize]) -> Jc2mState {
             }
         })
         .collect();
+    let challenge = pick(c, &["9182736", "0", "-1", "2147483647", "-2147483648", "-1234567"]).to_string();
     Jc2mState {
         hostname,
         version,
@@ -365,6 +368,7 @@ pub fn gen_jc2m(c: &mut Chooser, player_counts: &[usize]) -> Jc2mState {
         numplayers,
         extra,
         players,
+        challenge,
     }
 }
 
